@@ -1,4 +1,4 @@
-use super::{DecoderError, NeedMore};
+use super::DecoderError;
 use crate::ext::Protocol;
 
 use bytes::Bytes;
@@ -63,7 +63,9 @@ impl Header<Option<HeaderName>> {
 impl Header {
     pub fn new(name: Bytes, value: Bytes) -> Result<Header, DecoderError> {
         if name.is_empty() {
-            return Err(DecoderError::NeedMore(NeedMore::UnexpectedEndOfStream));
+            // The name was fully decoded and is empty: that is an invalid
+            // field name, not a truncated block.
+            return Err(DecoderError::InvalidUtf8);
         }
         if name[0] == b':' {
             match &name[1..] {
